@@ -151,7 +151,7 @@ pub fn well_typed(sc: &Scenario) -> bool {
 }
 
 pub const KINDS: &[&str] = &[
-    "fan_in", "fan_out", "pipeline", "request_reply", "await_chain", "late_await", "unread_mail", "fail", "await_race", "stale_answer", "stale_failure", "selective", "typed_selective", "mix",
+    "fan_in", "fan_out", "pipeline", "request_reply", "await_chain", "late_await", "unread_mail", "fail", "await_race", "stale_answer", "stale_failure", "selective", "typed_selective", "gap_select", "shared_await", "mix",
 ];
 
 pub fn generate(r: &mut Rng, kind: &str) -> Scenario {
@@ -169,6 +169,8 @@ pub fn generate(r: &mut Rng, kind: &str) -> Scenario {
         "stale_failure" => stale_failure(r),
         "selective" => selective(r),
         "typed_selective" => typed_selective(r),
+        "gap_select" => gap_select(r),
+        "shared_await" => shared_await(r),
         _ => mix(r),
     }
 }
@@ -919,8 +921,131 @@ pub fn typed_selective(r: &mut Rng) -> Scenario {
     b.finish("typed_selective", true, true)
 }
 
+/// CONFLUENT two-source selects: `! [earlier, later]` where `later` is a receive with a filter
+/// BODY that turns down every message the single sender ever sends, and `earlier` becomes ready
+/// only after some of those messages: a type-only or filtered receive of a message the sender
+/// sends LAST, or a process source whose target finishes only when main lets it.  Whatever has
+/// arrived when the select is evaluated, `later` never completes it, so the outcome is the
+/// `earlier` source on every schedule.  What the schedule does decide is WHEN the message (or
+/// the await answer) for `earlier` arrives: before the select starts, after it has parked, or in
+/// the gap between a filter call on a turned-down message (a filter call ends the time slice, and
+/// the worker drains its commands before the select is re-entered) and the evaluation of its
+/// verdict.  Several turned-down messages make several gaps.
+pub fn gap_select(r: &mut Rng) -> Scenario {
+    let mut b = B::new();
+    let rounds = 1 + r.usize(2);
+    let mut kids = vec![];
+    for round in 0..rounds {
+        let kb = CLASS_B + 2 * round as u64; // the tag the later source asks for: never sent
+        let kb_other = kb + 1; // what is sent instead
+        let ka = 1 + round as u64;
+        let rejected = 1 + r.usize(4);
+        match r.usize(3) {
+            0 | 1 => {
+                // main sends, the child selects
+                let by_filter = r.chance(1, 2);
+                let earlier = if by_filter { Src::RecvTag(ka) } else { Src::RecvCls(false) };
+                let (f, reg) = b.spawn(0, &[]);
+                b.select(f, vec![earlier, Src::RecvTag(kb)]);
+                // afterwards the child may read what it turned down
+                let reads = r.usize(rejected + 1);
+                for _ in 0..reads {
+                    b.select(f, vec![Src::RecvCls(true)]);
+                }
+                for _ in 0..rejected {
+                    b.send_tag(0, reg, kb_other);
+                }
+                b.send_tag(0, reg, ka);
+                kids.push(reg);
+            }
+            _ => {
+                // the earlier source is a process that finishes when main lets it
+                let (c, creg) = b.spawn(0, &[]);
+                b.recv(c);
+                let (f, reg) = b.spawn(0, &[creg]);
+                b.select(f, vec![Src::Proc(1), Src::RecvTag(kb)]);
+                for _ in 0..rejected {
+                    b.send_tag(0, reg, kb_other);
+                }
+                b.send(0, creg);
+                kids.push(reg);
+                if r.chance(1, 2) {
+                    kids.push(creg);
+                }
+            }
+        }
+    }
+    r.shuffle(&mut kids);
+    for reg in kids {
+        b.await1(0, reg);
+    }
+    b.finish("gap_select", true, true)
+}
+
+/// CONFLUENT shared targets: several DIFFERENT processes await the same process while it is still
+/// running (it finishes only when main sends it a message, after the awaiters have been spawned
+/// and - with some idle traffic in between - have asked).  Fillers shift the round-robin placement,
+/// so that for some worker counts the awaiters live on other workers than the target and on the
+/// same worker as each other.  Every awaiter yields the target's result, on every schedule and
+/// for every worker count.
+pub fn shared_await(r: &mut Rng) -> Scenario {
+    let mut b = B::new();
+    let targets = 1 + r.usize(2);
+    let mut all_awaiters = vec![];
+    let mut target_regs = vec![];
+    for _ in 0..targets {
+        let (t, treg) = b.spawn(0, &[]);
+        b.recv(t);
+        target_regs.push(treg);
+        let awaiters = 2 + r.usize(3);
+        for _ in 0..awaiters {
+            for _ in 0..r.usize(3) {
+                let (_d, dreg) = b.spawn(0, &[]);
+                if r.chance(1, 3) {
+                    all_awaiters.push(dreg);
+                }
+            }
+            let (a, areg) = b.spawn(0, &[treg]);
+            b.await1(a, 1);
+            if r.chance(1, 4) {
+                b.await1(a, 1);
+            }
+            all_awaiters.push(areg);
+        }
+    }
+    // pass time so that the queries reach the targets' workers while the targets are running
+    if r.chance(2, 3) {
+        let (p, preg) = b.spawn(0, &[0]);
+        let n = 1 + r.usize(3);
+        for _ in 0..n {
+            b.recv(p);
+            b.send(p, 1);
+        }
+        for _ in 0..n {
+            b.send(0, preg);
+            b.recv(0);
+        }
+        all_awaiters.push(preg);
+    }
+    for treg in &target_regs {
+        b.send(0, *treg);
+    }
+    r.shuffle(&mut all_awaiters);
+    for reg in all_awaiters {
+        b.await1(0, reg);
+    }
+    if r.chance(1, 2) {
+        for treg in &target_regs {
+            b.await1(0, *treg);
+        }
+    }
+    b.finish("shared_await", true, true)
+}
+
 /// Static check of the confluence class: every select has one source, no timeouts, every mailbox
-/// has a single sender script.
+/// has a single sender script.  The family `gap_select` is confluent by construction with
+/// two-source selects (see there): accepted by its shape — two sources, the later one a filtered
+/// receive of a tag nobody sends.
 pub fn is_confluent(sc: &Scenario) -> bool {
     let regs = reg_scripts(sc);
     let mut sender: HashMap<usize, usize> = HashMap::new();
@@ -936,7 +1061,10 @@ pub fn is_confluent(sc: &Scenario) -> bool {
                     }
                 }
                 Act::Select(srcs) => {
-                    if srcs.len() != 1 || matches!(srcs[0], Src::Timeout(_)) {
+                    let gap_shape = srcs.len() == 2
+                        && !matches!(srcs[0], Src::Timeout(_))
+                        && matches!(srcs[1], Src::RecvTag(k) if !sc.scripts.iter().flatten().any(|a| matches!(a, Act::Send { tag, .. } if *tag == k)));
+                    if !gap_shape && (srcs.len() != 1 || matches!(srcs[0], Src::Timeout(_))) {
                         return false;
                     }
                 }
